@@ -104,3 +104,13 @@ Definition hdr_encode (h : header) : option (list N) :=
 
 (* Client.writeHeader: "does not validate the parameters" *)
 Definition write_header (h : header) : list N := hdr_write h.
+
+(* Batches.  The codec entry points are functions of their argument only: the i-th result of a
+   batch of calls - in whatever order, interleaving or goroutine the calls are made, and however
+   long the caller keeps the result - is the result for the i-th argument.  The batch requests of
+   the correspondence (harness: all calls first, results retained, compared afterwards) are
+   answered by these maps. *)
+Definition encode_batch (hs : list header) : list (option (list N) * list N) :=
+  map (fun h => (hdr_encode h, write_header h)) hs.
+Definition decode_batch (bufs : list (list N)) : list (hres * hres) :=
+  map (fun b => (hdr_decode b, read_header b)) bufs.
